@@ -93,6 +93,15 @@ func memberUnconstrained(m jv) bool {
 				if e.v == true {
 					return false
 				}
+			case "propertyNames":
+				// propertyNames: true / {} translates to `_` and is not added
+				if e.v == true {
+					continue
+				}
+				if m, ok := e.v.(jobj); ok && len(m) == 0 {
+					continue
+				}
+				return false
 			default:
 				return false
 			}
@@ -147,7 +156,7 @@ func hasOneOfFalse(s jv) bool {
 }
 
 // contains whose subschema uses a validator that reports "incomplete" rather than failure
-// (struct.MinFields, list.UniqueItems) or a reference: list.MatchN validates the members
+// (struct.MinFields, list.UniqueItems, a missing required field) or a reference: list.MatchN validates the members
 // without requiring completeness, so such members count as matches
 func hasContainsWithIncompleteValidator(s jv) bool {
 	return anySchemaObj(s, func(o jobj) bool {
@@ -155,7 +164,7 @@ func hasContainsWithIncompleteValidator(s jv) bool {
 		if !ok {
 			return false
 		}
-		return hasKw(v, "minProperties") || hasKw(v, "$ref") || hasUniqueItemsTrue(v)
+		return hasKw(v, "minProperties") || hasKw(v, "required") || hasKw(v, "$ref") || hasUniqueItemsTrue(v)
 	})
 }
 
@@ -195,6 +204,13 @@ func hasCloser(s jv) bool {
 func hasSecondConjunct(s jv) bool {
 	return anySchemaObj(s, func(o jobj) bool {
 		if _, ok := o.get("$ref"); ok {
+			return true
+		}
+		// a matchIf / matchN(0) validator next to the kind disjunction
+		if _, ok := o.get("if"); ok {
+			return true
+		}
+		if _, ok := o.get("not"); ok {
 			return true
 		}
 		for _, k := range []string{"allOf", "anyOf", "oneOf"} {
